@@ -129,7 +129,11 @@ def build(spec, order=None, names=None, maxtime=None):
     if spec.get('ext') == 'first':
         ExternalSector(m)
     # countries first (all exist before sectors so that multi-output firms can name foreign markets)
-    for c in spec['countries']:
+    creation = list(spec['countries'])
+    if order and order.get('__countries__'):
+        # the Country objects themselves are created in another order (C08); the default-currency Region keeps its predecessor
+        creation = [specs_by_code[x] for x in order['__countries__']]
+    for c in creation:
         cc = NN(c, names, c['code'])
         if c['region'] and c.get('region_default_currency'):
             # documented default: a Region takes the currency of the country declared just before it
@@ -142,14 +146,19 @@ def build(spec, order=None, names=None, maxtime=None):
         ExternalSector(m)
     # pass 1: every declaration except multi-output firms that supply a foreign market declared later
     deferred = []
-    for c in spec['countries']:
-        co = b.countries[c['code']]
-        decls = declarations(c)
-        ids = [d[0] for d in decls]
-        if order and c['code'] in order:
-            ids = list(order[c['code']])
-        for did in ids:
-            _declare(b, c, co, did, names, specs_by_code, ext_imported, deferred)
+    if order and order.get('__global__'):
+        # declarations of several countries interleaved: [[country code, declaration id], ...]
+        for ccode, did in order['__global__']:
+            _declare(b, specs_by_code[ccode], b.countries[ccode], did, names, specs_by_code, ext_imported, deferred)
+    else:
+        for c in spec['countries']:
+            co = b.countries[c['code']]
+            decls = declarations(c)
+            ids = [d[0] for d in decls]
+            if order and c['code'] in order:
+                ids = list(order[c['code']])
+            for did in ids:
+                _declare(b, c, co, did, names, specs_by_code, ext_imported, deferred)
     for fn in deferred:
         fn()
     if spec.get('ext') == 'last':
